@@ -314,12 +314,25 @@ def run(ctx, rep):
               "unexpected writer(s) of state_machine: %s" % sorted(writers - okw))
     for nm in ("new", "reset_fsm"):
         p = FSM + "ItsPayloadFsmContinuous::" + nm
-        tb = ev.tb(p)
         init_ok = False
-        if tb:
+        # the state constructor may sit in a local helper of the FSM type (followed two levels deep)
+        todo, seen_ = [(p, 0)], set()
+        while todo:
+            q, d = todo.pop()
+            if q in seen_:
+                continue
+            seen_.add(q)
+            tb = ev.tb(q)
+            if not tb:
+                continue
             for i, n in tb.walk():
-                if n["k"] == "Call" and (n.get("fn") or "").endswith("AsEnum::as_enum"):
+                if n["k"] != "Call":
+                    continue
+                fn_ = n.get("res") or n.get("fn") or ""
+                if (n.get("fn") or "").endswith("AsEnum::as_enum"):
                     init_ok = "IHW_," in n["ga"][0]["s"] and "NoneEvent" in n["ga"][0]["s"]
+                elif fn_.startswith(FSM + "ItsPayloadFsmContinuous::") and d < 2:
+                    todo.append((fn_, d + 1))
         rep.check(init_ok, "R9.0", "R9.0|initial|%s" % nm, "%s() yields the initial IHW state" % nm, p)
 
     # ---- diagram
